@@ -53,6 +53,9 @@ func c11Depth(in *c11In, s int) int {
 func c11Gen(r *Rand, tier string) interface{} {
 	in := &c11In{}
 	n := 1 + r.Intn(6)
+	if r.Chance(1, 30) {
+		n = 7 + r.Intn(6)
+	}
 	for i := 0; i < n; i++ {
 		sc := c11Scope{Parent: -1, Tasks: r.Intn(3)}
 		if i > 0 {
